@@ -255,7 +255,7 @@ Proof.
   destruct (use_stdin (ci_args i)) eqn:Hs.
   - destruct (ci_gunzip i) eqn:Hz; simpl.
     + reflexivity.
-    + rewrite seq_keys_filter. rewrite !app_nil_r, !cut_ids.
+    + rewrite seq_keys_filter. rewrite !app_nil_r, !cut_ids. change STDIN_LIT with StdinName.
       rewrite lines_same_refl. change (errors_of [stdin_source flush (ci_batch i) (ci_stdin i)]) with 0.
       rewrite Z.eqb_refl. reflexivity.
   - simpl. rewrite seq_keys_filter, input_of_sources, errors_of_sources, expand_spec.
